@@ -80,7 +80,8 @@ func methodsOfClass(kind byte, class string) []methodInfo {
 
 // synthCtx tells the synthesiser what the world looks like.
 type synthCtx struct {
-	sink    int // an empty stack nothing refers to: the only safe Transfer destination / expression (no cycles)
+	fenced  bool // the receiver is read-only for the whole burst
+	sink    int  // an empty stack nothing refers to: the only safe Transfer destination / expression (no cycles)
 	self    int
 	stacks  []int // world indices of live stacks
 	conds   []int
@@ -123,6 +124,11 @@ func synthArgs(r *Rng, m methodInfo, c *synthCtx, variant int) []Val {
 	// method-specific shapes first
 	switch m.Name {
 	case "SetID", "SetCategory":
+		if c.fenced && m.Name == "SetID" && variant%3 == 1 {
+			// on a read-only instance these must be refused like any other
+			// (they are never used elsewhere: their effect is not deterministic)
+			return []Val{vStr([]string{"_random", "_addr", "_RANDOM", "_Addr"}[r.Intn(4)])}
+		}
 		return []Val{c.uv("id")}
 	case "SetKeyword":
 		return []Val{c.uv("kw")}
